@@ -127,7 +127,8 @@ def run(ck):
                 mvi["compared"] += 1
                 if norm(i) != norm(m):
                     mvi["disagree"] += 1
-                    ck.report("corr:import", "model and implementation disagree on COPY FROM of a given text: %s" % q[:300], replay={"request": q, "impl": i, "model": m})
+                    cls = lambda a: a[7:] if a[7:] in ("err", "panic", "-") else "rows"
+                    ck.report("corr:import:impl=%s,model=%s" % (cls(i), cls(m)), "model and implementation disagree on COPY FROM of a given text: %s" % q[:300], replay={"request": q, "impl": i, "model": m})
                 elif i[7:] not in ("err", "panic", "-"):
                     nontrivial.add(q)
                 continue
